@@ -14,7 +14,7 @@ ASSUMPTIONS = []  # filled in at the bottom of the module
 # Candidate genuine defects found by this check on the unchanged tree: the generators avoid the triggering shape by
 # construction (and count the avoided draws with a label ``excluded:<signature>``) while the entry is True.
 EXCLUDE_KNOWN = {
-    "save/cartesian-full-not-recentred": True,
+    "save/cartesian-full-not-recentred": False,  # repaired in /repo (fix: commit f77869d): searched again
     "maps/outline-from-data/ijmax": True,
     "maps/outline-from-data/corner-symmetry": True,
     "maps/outline-from-text/right-edge-empty": True,
@@ -355,8 +355,8 @@ def gridsave_execute(case):
     else:
         dcase = dict(case["dict"], kind=kind)
         _k, contents = _dict_contents(dcase, allow_negative_cart=cart_full)
-        if route == "contents-trymap":
-            contents = _avoid_known_frame_shapes(out, kind, contents, LABELSETS[dcase["labels"]][0], avoid)
+        # (since fix f77869d saveToStream reads its own map back and falls back to grid contents, so the frame shapes that
+        #  asciimaps draws incompletely are no longer avoided on this route)
         doc = "\n".join(["grids:"] + grid_text("g", geom, symmetry, contents=contents, pitch=pitch)) + "\n"
     out.nontrivial = len(contents) >= 3
     bp = blueprints.Blueprints.load(doc)
